@@ -288,6 +288,11 @@ pub fn run(args: &[String]) -> i32 {
         json!({"containers": ["struct", "struct variant of a tagged enum"], "fields_per_container": max_fields, "idents": IDENTS.len(), "renames": RENAMES.len(),
                "rename_all": RULES.len(), "placements": ["own container", "enclosing enum only", "both"], "attr_styles": 4, "extra_serde_attributes": [false, true], "languages": 6, "configs": ["defaults", "prefix + other package + Go uppercase_acronyms [ID, URL]"]}),
     );
+    let amb_k = if rep.thorough() { 3 } else { 2 };
+    super::common::ambient_family(&mut rep, "ambient_variations", amb_k, |ch| { gen(ch, 2); }, |ch, acc| {
+        let c = gen(ch, 2);
+        check_case(&c, &ch.choices(), acc);
+    });
     require_nonvacuous(&mut rep);
     rep.cov("rule", json!("full product of identifier × serde(rename) × rename_all rule × placement × attribute spelling × language × prefix/package configuration; every case rendered to Rust, run through parse→reconcile→generate, parsed back with the language extractor and compared with serde's key (vendored case.rs + precedence rename > rename_all > ident). non-trivial = expected key differs from the Rust identifier or from the target identifier. states = distinct rendered Rust inputs."));
     rep.assume("extractors recover the key exactly as the target's JSON library would bind it (TS property name, Kotlin @SerialName else val name, Swift CodingKeys raw value else property name, Scala identifier, Go json tag, Python Field alias else attribute name)");
